@@ -17,7 +17,11 @@ RULE = ('generated source directories converted by the real EphysAlfCreator: (a)
         'maps inside wider raw files, curated (emptied ids below and above n_templates) or not (unused template at the start / '
         'in the middle / at the end), features full / subset / none; (b) merged '
         'datasets produced by running the real Merger on 1..4 probe directories of unequal channel counts with permuted '
-        'channel maps (then the real exporter), optionally with a pc_features.npy added to the merged directory. '
+        'channel maps (then the real exporter), optionally with a pc_features.npy added to the merged directory; (c) single '
+        'uncurated directories with full features and MORE than 50 000 spikes (get_depths\' batch size; quick: one of '
+        '50 009..50 048 spikes, thorough: 50 001, 99 999, 100 000, 100 001.., 150 003) repeating a period of 4..8 spikes, whose '
+        'spikes.amps / spikes.depths are judged entry j against the one-period model at j mod k (C14_depths_periodic, '
+        'C14_spike_amps_periodic). '
         'Corpus first (the three-probe maps [2,0,1] [1,3,0,2] [0,1], narrow probes, 12/13/14 channels), then axis '
         'products, then seeded random. Non-trivial = the conversion ran and wrote every value file; distinct = distinct '
         'abstract input.')
@@ -36,7 +40,9 @@ CLAUSES = {
 TRUSTED = ['np.load/np.save, the TemplateModel loader (C04), cluster_waveforms (C08) and, for merged datasets, the Merger (C11/C12): '
            'the arrays of the loaded model are snapshotted before convert() and are the inputs of the Coq model',
            'np.matmul / np.bincount / np.unique / np.argmax / np.argsort (a sorting permutation; ties undetermined) / fancy indexing as documented',
-           'observed floats are converted to exact rationals: float64 files within 2^-48, float32 files within 2^-23 relative of the exact model value, NaN exactly NaN']
+           'observed floats are converted to exact rationals: float64 files within 2^-48, float32 files within 2^-23 relative of the exact model value, NaN exactly NaN',
+           'datasets of more than 50 000 spikes: the harness (datasets_c14.snapshot) checks with NumPy that the loaded per-spike arrays '
+           'are the first period repeated and that the amplitudes are constant per template; the Coq model is evaluated on that period']
 ASSUMES = ['dense templates, amplitudes.npy present, feature store with pc_feature_ind.npy; no clusters.channels.npy in the source (C13\'s regime)',
            'exact regime: integer stored values (|template| < 2^24), non-negative channel positions, positive finite factor and rate',
            'no array axis of length 1 in the source (phylib squeezes what it loads)',
@@ -46,7 +52,7 @@ MATCHERS = {}
 
 
 def _case(inp):
-    return {'kind': 'merged' if inp['merged'] else 'single', 'inp': inp}
+    return {'kind': 'big' if inp.get('big_n') else 'merged' if inp['merged'] else 'single', 'inp': inp}
 
 
 def generate(tier, rng):
@@ -96,6 +102,13 @@ def generate(tier, rng):
     cases.append(_case(X.gen_single(rng, curated=True, nt=3, nspk=5, st=[0, 1, 2, 2, 0], sc=[5, 5, 7, 2, 5], features='full', nc=3)))
     cases.append(_case(X.gen_single(rng, curated=True, nt=4, nspk=6, st=[0, 1, 2, 3, 2, 3], sc=[6, 6, 6, 6, 6, 6], features='subset', nc=5)))
     cases.append(_case(X.gen_single(rng, curated=True, nt=2, nspk=4, st=[0, 0, 1, 1], sc=[1, 1, 4, 6], features='none', nc=3)))
+    # (e) the batch loop of get_depths (50 000 spikes per batch) as seen in the exported spikes.depths: periodic single
+    # directories with full features and MORE than 50 000 spikes (not a multiple of the batch size: a trailing partial
+    # batch; an exact multiple; one spike more than a batch), everything else tiny.  spikes.amps / spikes.depths are
+    # judged entry j against the model of one period at j mod k (Corr.v, InAlfBig).
+    for n in {'quick': (50008 + rng.randint(1, 40),), 'thorough': (50001, 99999, 100000, 100001 + rng.randint(0, 40), 150003),
+              'search': (50001,)}[tier]:
+        cases.append(_case(X.gen_big(rng, n, **({'reps': 4} if tier == 'quick' else {}))))      # quick: period 8
     # ---- axis products ------------------------------------------------------------------------------------
     n_axis, n_single, n_merged = {'quick': (2, 80, 80), 'thorough': (10, 2500, 2500), 'search': (2, 150, 150)}[tier]
     for _ in range(n_axis):
@@ -124,7 +137,7 @@ def run_case(case):
     base = tempfile.mkdtemp(prefix='c14_', dir=os.environ.get('VT_WORK') or None)
     try:
         m = X.build_model(inp, base)
-        snap = X.snapshot(m)
+        snap = X.snapshot(m, inp['probes'][0]['n_spikes'] if inp.get('big_n') else None)
         out = os.path.join(base, 'alf')
         try:
             m2 = EphysAlfCreator(m).convert(out, label=inp['label'], ampfactor=float(inp['factor']))
@@ -169,8 +182,11 @@ def _tk(t):
     return D.coq_tok(tuple(t) if isinstance(t, list) else t)
 
 
-def _tl(l):
-    return q.lst(l, _tk)
+def _tl(l, size=400):
+    """long lists are written as concat [[..]; [..]] (Coq's list notation overflows the stack on 50 000 items)"""
+    if len(l) <= size:
+        return q.lst(l, _tk)
+    return '(List.concat %s)' % q.lst([l[j:j + size] for j in range(0, len(l), size)], lambda c: q.lst(c, _tk))
 
 
 def _tll(l):
@@ -200,7 +216,12 @@ def encode(case, obs):
     orig = 'None'
     if inp['merged']:
         orig = '(Some %s)' % q.zll([p['channel_map'] for p in inp['probes']])
-    cin = '(InAlf %s %s %s %s %s)' % (x, _tk(D.tok(float(inp['factor']))), _tk(s['rate']), orig, q.zl(s['nan_idx']))
+    if inp.get('big_n'):
+        if not s.get('periodic'):
+            raise ValueError('C14 regime: the tiled dataset did not load as a periodic one')
+        cin = '(InAlfBig %s %s %s %s %s)' % (x, _tk(D.tok(float(inp['factor']))), _tk(s['rate']), q.zl(s['nan_idx']), q.z(s['n']))
+    else:
+        cin = '(InAlf %s %s %s %s %s)' % (x, _tk(D.tok(float(inp['factor']))), _tk(s['rate']), orig, q.zl(s['nan_idx']))
     if obs[0] == 'raised' or any(v[k] is None for k in X.VALUE_FILES):
         return cin, 'ObsCrash'
     cobs = '(ObsAlf (mk_alf_obs %s %s %s %s %s %s %s %s %s %s %s %s))' % (
@@ -220,6 +241,9 @@ def dist(case, obs):
     o = inp['opts']
     out = ['kind=%s' % case['kind'], 'label=%s' % (inp['label'] or '-'), 'factor=%s' % inp['factor'],
            'cm_dtype=%s' % inp['render']['cm_dtype']]
+    if inp.get('big_n'):
+        out += ['big.n_spikes=%s' % ('50001..99999' if inp['big_n'] < 100000 else '100000' if inp['big_n'] == 100000 else '>100000'),
+                'big.multiple_of_batch=%s' % (inp['big_n'] % 50000 == 0), 'big.period=%d' % inp['probes'][0]['n_spikes']]
     if inp['merged']:
         out += ['merged.k=%d' % o['k'], 'merged.wmi=%s' % o['wmi'], 'merged.features=%s' % o['mfeatures'],
                 'merged.channels=%s' % ('<12' if sum(o['ncs']) < 12 else '=12' if sum(o['ncs']) == 12 else '>12'),
@@ -259,6 +283,24 @@ def _with_probe(inp, k, sem):
 
 def shrink(case):
     inp = case['inp']
+    if inp.get('big_n'):
+        # first the one-period dataset as an ordinary small case (then the failure does not need the batch loop), then
+        # fewer spikes above the batch size; each candidate is a 50 000-spike conversion, so nothing finer is tried
+        j = copy.deepcopy(inp)
+        del j['big_n']
+        yield _case(j)
+        k = inp['probes'][0]['n_spikes']
+        for n in (50001, 50001 + k, 100001):
+            if n < inp['big_n']:
+                j = copy.deepcopy(inp)
+                j['big_n'] = n
+                yield _case(j)
+        for key, dv in (('factor', 1.0), ('label', '')):
+            if inp[key] != dv:
+                j = copy.deepcopy(inp)
+                j[key] = dv
+                yield _case(j)
+        return
     if inp['merged']:
         for k in range(len(inp['probes'])):
             j = X.drop_probe(inp, k)
@@ -308,7 +350,7 @@ def shrink(case):
 def size(case):
     inp = case['inp']
     return sum(s['n_spikes'] * 10 + s['n_templates'] * s['n_samples_wf'] * s['n_channels'] for s in inp['probes']) + \
-        100 * len(inp['probes']) + (50 if inp.get('features') else 0)
+        100 * len(inp['probes']) + (50 if inp.get('features') else 0) + 10 * inp.get('big_n', 0)
 
 
 def repro(case):
